@@ -225,6 +225,7 @@ func (w *World) Decls(indent string) string {
 		}
 		fmt.Fprintf(&sb, "%s}\n", indent)
 	}
+	fmt.Fprintf(&sb, "%saccess(all) attachment RA0 for R0 {\n%s    access(all) let w: Int\n%s    init(w: Int) { self.w = w }\n%s    access(all) view fun total(): Int { return self.w + base.n + base.id }\n%s}\n", indent, indent, indent, indent, indent)
 	if w.Attachment != "" {
 		fmt.Fprintf(&sb, "%saccess(all) attachment A0 for S0 {\n%s    access(all) let k: Int\n%s    init(k: Int) { self.k = k }\n%s    access(all) view fun sum(): Int { return self.k + base.a }\n%s}\n", indent, indent, indent, indent, indent)
 	}
